@@ -513,12 +513,40 @@ def add_guard_rule(ctx, rule: str):
                 g = None
         return g if isinstance(g, FuncInfo) and not g.node.decorator_list else None
 
+    def evaluated(raw):
+        """None when every path of the operator, run with its decorators applied, ends in TypeError; a reason otherwise;
+        AnalysisError when the evaluation has no model for something"""
+        from .kernels import circ_record, run_paths
+        from .absint import AExc
+
+        verdicts = []
+
+        def post(I, o):
+            ok = o.kind == "raise" and isinstance(o.value, AExc) and o.value.name == "TypeError"
+            verdicts.append(None if ok else "a path of %s ends with %r instead of raising TypeError" % (raw.qualname, o))
+            return []
+
+        run_paths(ctx, raw, lambda I: ((circ_record(), Term("other")), {}), [], hooks={"apply_decorators": True}, post=post)
+        if not verdicts:
+            raise AnalysisError("%s: no path explored" % raw.where())
+        bad = [v for v in verdicts if v]
+        return bad[0] if bad else None
+
     for name in ("__add__", "__radd__"):
         owner, raw = p.class_attr_def(ci, name)
         if not isinstance(raw, FuncInfo):
             r.ob(rule, "moclo.record.CircularRecord.%s" % name, False,
                  "%s is not defined in the circular record: the library's concatenation applies" % name, ci.where())
             continue
+        if raw.node.decorator_list:
+            # what the decorated name does is decided by running it (the wrapper is built, then called); the shape of the
+            # decorator is consulted only when the evaluation has no model for it
+            try:
+                why = evaluated(raw)
+                r.ob(rule, raw.qualname, why is None, why or "", raw.where())
+                continue
+            except AnalysisError:
+                pass
         why = None
         decs = raw.node.decorator_list
         if decs:
